@@ -442,3 +442,254 @@ func runC07Live(c *Case) {
 	c.NT = kept > 0 && kept < n
 	c.Sample = map[string]any{"workload": "live stalled subscriber", "server": kind, "OutQueueSize": q, "published": n, "kept_for_stalled": kept, "bound": bound, "markers": marker}
 }
+
+// liveSerializer returns the serializer object for computing wire sizes.
+func liveSerializer(s serialize.Serialization) serialize.Serializer {
+	switch s {
+	case serialize.MSGPACK:
+		return &serialize.MessagePackSerializer{}
+	case serialize.CBOR:
+		return &serialize.CBORSerializer{}
+	}
+	return &serialize.JSONSerializer{}
+}
+
+// livePayload is a deterministic pseudo-random printable string of length n keyed by k.
+func livePayload(k, n int) string {
+	b := make([]byte, n)
+	x := uint32(k*2654435761 + 12345)
+	for i := range b {
+		x = x*1664525 + 1013904223
+		b[i] = 'a' + byte((x>>24)%26)
+	}
+	return string(b)
+}
+
+// sizedPublish builds a PUBLISH whose serialized size is exactly target bytes (payload adjusted).
+func sizedPublish(ser serialize.Serializer, req wamp.ID, topic string, seq, target int) (*wamp.Publish, int) {
+	mk := func(n int) *wamp.Publish {
+		return &wamp.Publish{Request: req, Options: wamp.Dict{"acknowledge": true}, Topic: wamp.URI(topic), Arguments: wamp.List{seq, livePayload(seq, n)}}
+	}
+	n := target - 80
+	if n < 0 {
+		n = 0
+	}
+	for tries := 0; tries < 400; tries++ {
+		b, err := ser.Serialize(mk(n))
+		if err != nil {
+			break
+		}
+		switch {
+		case len(b) == target:
+			return mk(n), len(b)
+		case len(b) < target:
+			n += target - len(b)
+		default:
+			n -= len(b) - target
+			if n < 0 {
+				n = 0
+			}
+		}
+	}
+	m := mk(n)
+	b, _ := ser.Serialize(m)
+	return m, len(b)
+}
+
+// runC15Live: the real servers and the project's client transports carry
+// messages of sizes around the negotiated limits in both directions; what is
+// accepted arrives intact (content compared) and in order, what exceeds the
+// receiver's announced limit is dropped as a whole, the messages that follow
+// are unaffected and the connections stay up.
+func runC15Live(c *Case) {
+	r := c.Rng
+	kind := pick(r, []string{"raw-unix", "raw-tcp", "raw-unix", "ws-unix", "ws-tcp"})
+	isRaw := strings.HasPrefix(kind, "raw")
+	srvLimit := pick(r, []int{0, 4096, 5000, 65536, 1 << 20})
+	cliLimit := pick(r, []int{0, 2048, 3000, 65536})
+	effSrv, effCli := 16<<20, 16<<20
+	if srvLimit > 0 {
+		effSrv = lenOfNibble(nibbleFor(srvLimit))
+	}
+	if cliLimit > 0 {
+		effCli = lenOfNibble(nibbleFor(cliLimit))
+	}
+	serA, serB := pick(r, liveSers), pick(r, liveSers)
+	c.Key = fmt.Sprintf("live kind=%s srv=%d cli=%d serA=%v serB=%v seed=%d", kind, srvLimit, cliLimit, serA, serB, c.Index)
+	inconclusive := func(why string) {
+		c.Add("live_cases_inconclusive", 1)
+		c.Tracef("live case inconclusive: %s", why)
+		c.Sample = map[string]any{"workload": "live", "inconclusive": why}
+	}
+	ln, err := newLiveNet(kind, &router.RealmConfig{URI: "realm1", AnonymousAuth: true}, liveServerCfg{RecvLimit: srvLimit})
+	if err != nil {
+		inconclusive("cannot start servers: " + err.Error())
+		return
+	}
+	defer ln.close()
+	a, err := ln.join(serA, cliLimit, nil) // the session with the small receive limit
+	if err != nil {
+		inconclusive("A cannot join: " + err.Error())
+		return
+	}
+	defer a.close()
+	b, err := ln.join(serB, 0, nil)
+	if err != nil {
+		inconclusive("B cannot join: " + err.Error())
+		return
+	}
+	defer b.close()
+	if a.send(&wamp.Subscribe{Request: 1, Options: wamp.Dict{}, Topic: "to.a"}) != nil || a.waitFor(hasReply(1)) != nil ||
+		b.send(&wamp.Subscribe{Request: 1, Options: wamp.Dict{}, Topic: "to.b"}) != nil || b.waitFor(hasReply(1)) != nil {
+		inconclusive("subscribe not answered")
+		return
+	}
+	type sent struct {
+		seq, wire int
+		fits     bool
+		payload  string
+	}
+	var aToB, bToA []sent
+	req := wamp.ID(10)
+	seq := 0
+	sa, sb := liveSerializer(serA), liveSerializer(serB)
+	// ---- A -> router (limit: what the server announced), observed by B
+	targets := []int{200, 1000}
+	if isRaw && effSrv <= 1<<20 {
+		targets = append(targets, effSrv-1, effSrv, effSrv+1, effSrv+500, 300)
+	} else {
+		targets = append(targets, 70000, 1<<20, 300)
+	}
+	for _, t := range targets {
+		seq++
+		req++
+		m, wire := sizedPublish(sa, req, "to.b", seq, t)
+		fits := !isRaw || wire <= effSrv
+		aToB = append(aToB, sent{seq, wire, fits, m.Arguments[1].(string)})
+		if a.send(m) != nil {
+			inconclusive("A cannot send")
+			return
+		}
+		if fits {
+			if err := a.waitFor(hasReply(req)); err != nil {
+				if errors.Is(err, errLiveWatchdog) {
+					inconclusive("publication not acknowledged")
+					return
+				}
+				c.Fail("LV4", "connection lost on a message within the announced limit", "%s: A's PUBLISH of %d bytes on the wire (server limit %d) ended its connection: %v", kind, wire, effSrv, err)
+				return
+			}
+		}
+	}
+	// ---- B -> A through the router (limit: what A announced). The EVENT is a little larger or smaller than
+	// the PUBLISH (ids), so sizes keep 64 bytes of distance from A's limit.
+	targets = []int{200, 1000}
+	if isRaw && effCli <= 1<<20 {
+		targets = append(targets, effCli-200, effCli+200, 300, effCli+5000, 400)
+	} else {
+		targets = append(targets, 70000, 1<<20, 300)
+	}
+	for _, t := range targets {
+		seq++
+		req++
+		m, wire := sizedPublish(sb, req, "to.a", seq, t)
+		// B's own frame must fit the server's limit
+		if isRaw && wire > effSrv {
+			continue
+		}
+		evWire := wire // about; decided with margin below
+		fits := !isRaw || evWire+64 <= effCli
+		over := isRaw && evWire-64 > effCli
+		if !fits && !over {
+			continue
+		}
+		bToA = append(bToA, sent{seq, wire, fits, m.Arguments[1].(string)})
+		if b.send(m) != nil || b.waitFor(hasReply(req)) != nil {
+			inconclusive("B's publication not acknowledged")
+			return
+		}
+	}
+	// closing markers in both directions (closed loop: everything before them has been routed)
+	seq++
+	req++
+	endSeq := seq
+	if a.send(&wamp.Publish{Request: req, Options: wamp.Dict{"acknowledge": true}, Topic: "to.b", Arguments: wamp.List{endSeq, "end"}}) != nil || a.waitFor(hasReply(req)) != nil {
+		c.Fail("LV4", "sender unusable after an oversize message", "%s: after sending frames above the server's limit (%d), A's next small PUBLISH was not acknowledged", kind, effSrv)
+		return
+	}
+	req++
+	if b.send(&wamp.Publish{Request: req, Options: wamp.Dict{"acknowledge": true}, Topic: "to.a", Arguments: wamp.List{endSeq, "end"}}) != nil || b.waitFor(hasReply(req)) != nil {
+		inconclusive("B's end marker not acknowledged")
+		return
+	}
+	sawEnd := func(l []wamp.Message) bool {
+		for _, m := range l {
+			if ev, ok := m.(*wamp.Event); ok && len(ev.Arguments) == 2 {
+				if s, _ := canon.AsStr(ev.Arguments[1]); s == "end" {
+					return true
+				}
+			}
+		}
+		return false
+	}
+	if err := b.waitFor(sawEnd); err != nil {
+		if errors.Is(err, errLiveWatchdog) {
+			inconclusive("end marker did not reach B")
+		} else {
+			c.Fail("LV4", "receiver disconnected", "%s: B's connection ended before the end marker: %v", kind, err)
+		}
+		return
+	}
+	if err := a.waitFor(sawEnd); err != nil {
+		if errors.Is(err, errLiveWatchdog) {
+			inconclusive("end marker did not reach A")
+		} else {
+			c.Fail("LV4", "connection lost after a message above the client's announced limit", "%s: A (announced receive limit %d) lost its connection instead of just not being sent the oversize EVENT: %v", kind, effCli, err)
+		}
+		return
+	}
+	check := func(who string, got []wamp.Message, want []sent, limit int) {
+		idx := 0
+		var exp []sent
+		for _, s := range want {
+			if s.fits {
+				exp = append(exp, s)
+			}
+		}
+		for _, m := range got {
+			ev, ok := m.(*wamp.Event)
+			if !ok || len(ev.Arguments) != 2 {
+				continue
+			}
+			k, _ := canon.AsID(ev.Arguments[0])
+			p, _ := canon.AsStr(ev.Arguments[1])
+			if p == "end" {
+				continue
+			}
+			c.Hit("LV5")
+			if idx >= len(exp) || int(k) != exp[idx].seq {
+				wantSeq := -1
+				if idx < len(exp) {
+					wantSeq = exp[idx].seq
+				}
+				c.Fail("LV5", "message lost, reordered, or delivered above the receiver's limit", "%s: %s received event %d where %d was expected (limit %d; sent: %v)", kind, who, k, wantSeq, limit, sentSummary(want))
+				return
+			}
+			if p != exp[idx].payload {
+				c.Fail("LV5", "payload altered in transit", "%s: %s received event %d (%d bytes on the wire) with a payload different from what was published", kind, who, k, exp[idx].wire)
+				return
+			}
+			idx++
+		}
+		if idx != len(exp) {
+			c.Fail("LV5", "message within the limits not delivered", "%s: %s received %d of the %d events that fit the negotiated limits (limit %d; sent: %v)", kind, who, idx, len(exp), limit, sentSummary(want))
+		}
+	}
+	check("B", b.snapshot(), aToB, effSrv)
+	check("A", a.snapshot(), bToA, effCli)
+	c.Hit("LV4")
+	c.NT = isRaw && (effSrv <= 1<<20 || effCli <= 1<<20)
+	c.Sample = map[string]any{"workload": "live sizes", "server": kind, "server_recv_limit": srvLimit, "client_recv_limit": cliLimit, "a_to_b": sentSummary(aToB), "b_to_a": sentSummary(bToA)}
+}
+
+func sentSummary[T any](l []T) string { return fmt.Sprintf("%v", l) }
